@@ -68,6 +68,10 @@ structure Sys where
   dsrv : Srv := {}
   sc : Client := fun _ => {}
   dc : Client := fun _ => {}
+  -- the responses delivered to the two clients during the current op, in delivery order:
+  -- (type, number of resources, number of removed names)
+  slog : List (Ty × Nat × Nat) := []
+  dlog : List (Ty × Nat × Nat) := []
 
 /-- Generator seen by request handling (forced) and by SotW pushes. -/
 def Sys.genReq (y : Sys) : Gen := worldGen y.world
@@ -84,7 +88,7 @@ def sotwDeliver (y : Sys) (w : Wire) : Sys × List Wire :=
   let held := if w.ty.wildcard then w.resources else upsert ct.held w.resources
   let nonce := w.nonce
   let ct' := { ct with held := held, nonce := nonce }
-  let y1 := { y with sc := y.sc.set w.ty ct' }
+  let y1 := { y with sc := y.sc.set w.ty ct', slog := y.slog ++ [(w.ty, w.resources.length, 0)] }
   if ct.subscribed then
     match processSotw y1.genReq y1.ssrv { ty := w.ty, names := ct.sub, nonce := nonce, err := none } with
     | some (v, ws) => ({ y1 with ssrv := v }, ws)
@@ -96,7 +100,7 @@ def deltaDeliver (y : Sys) (w : Wire) : Sys × List Wire :=
   let held := applyDelta ct.held { resources := w.resources, removed := w.removed }
   let nonce := w.nonce
   let ct' := { ct with held := held, nonce := nonce }
-  let y1 := { y with dc := y.dc.set w.ty ct' }
+  let y1 := { y with dc := y.dc.set w.ty ct', dlog := y.dlog ++ [(w.ty, w.resources.length, w.removed.length)] }
   match processDelta y1.genReq y1.dsrv { ty := w.ty, sub := [], unsub := [], init := [], nonce := nonce, err := none } with
   | some (v, ws) => ({ y1 with dsrv := v }, ws)
   | none => (y1, [])
@@ -128,7 +132,7 @@ def deliver (y : Sys) (sw dw : List Wire) : Sys := deliverRounds 8 unbounded unb
 inductive Op
   | world (t : Ty) (res : List Res)
   | sub (t : Ty) (names : List String)
-  | subx (t : Ty) (names : List String) (keepNonce legacy : Bool)
+  | subx (t : Ty) (names : List String) (keepNonce legacy : Bool) (nackFirst : Bool := false)
   | pushall
   | reconnect
   | pushcut (k : Nat)
@@ -139,7 +143,11 @@ def changedNames (old new : List Res) : List String :=
 
 /-- `keepNonce`: the delta client presents the nonce it retained from the previous stream in the first request
     of a stream; `legacy`: it makes a wildcard subscription the legacy way (no `resource_names_subscribe`). -/
-def stepSub (y : Sys) (t : Ty) (rawNames : List String) (keepNonce : Bool := false) (legacy : Bool := false) : Sys :=
+def stepSub (y : Sys) (t : Ty) (rawNames : List String) (keepNonce : Bool := false) (legacy : Bool := false)
+    (nackFirst : Bool := false) : Sys :=
+  -- `nackFirst`: the first request of the stream for this type carries `error_detail` (the NACK the proxy could
+  -- not send before the previous stream broke), for both clients
+  let nackErr : Option String := some "rejected on the previous stream"
   let nm := sortNames rawNames
   -- SotW client
   let sc := y.sc t
@@ -156,7 +164,8 @@ def stepSub (y : Sys) (t : Ty) (rawNames : List String) (keepNonce : Bool := fal
     else
       -- a reconnecting client presents the nonce it retained from the previous stream
       let y0 := { y with sc := y.sc.set t { sc with held := heldS, subscribed := true, sub := nm } }
-      match processSotw y0.genReq y0.ssrv { ty := t, names := nm, nonce := sc.nonce, err := none } with
+      let errS := if nackFirst && !sc.subscribed then nackErr else none
+      match processSotw y0.genReq y0.ssrv { ty := t, names := nm, nonce := sc.nonce, err := errS } with
       | some (v, ws) => ({ y0 with ssrv := v }, ws)
       | none => (y0, [])
   -- delta client
@@ -171,9 +180,10 @@ def stepSub (y : Sys) (t : Ty) (rawNames : List String) (keepNonce : Bool := fal
         -- a named resource the client no longer wants is dropped before it reports what it retains
         let heldD := if t.wildcard then dc.held else dc.held.filter (fun x => nm.contains x.1)
         let y0 := { y1 with dc := y1.dc.set t { dc with held := heldD, subscribed := true, sub := nm } }
+        let errD := if nackFirst then nackErr else none
         -- first request on a stream: report everything retained (initial_resource_versions)
         match processDelta y0.genReq y0.dsrv { ty := t, sub := sub, unsub := [], init := sortNames (names heldD),
-                                               nonce := if keepNonce then dc.nonce else "", err := none } with
+                                               nonce := if keepNonce then dc.nonce else "", err := errD } with
         | some (v, ws) => ({ y0 with dsrv := v }, ws)
         | none => (y0, [])
     else
@@ -188,7 +198,7 @@ def stepSub (y : Sys) (t : Ty) (rawNames : List String) (keepNonce : Bool := fal
         | none => (y0, [])
   deliver y2 sw dw
 
-def step (y : Sys) : Op → Sys
+def stepCore (y : Sys) : Op → Sys
   | .world t res =>
     -- xDS is generated from the PushContext snapshot of the last push to this connection
     -- (`proxy.LastPushContext`): a change becomes visible at the next push.  Endpoints are read
@@ -198,7 +208,7 @@ def step (y : Sys) : Op → Sys
              world := fun t' => if t' = t && t = .eds then res else y.world t',
              changed := fun t' => if t' = t then y.changed t ++ ch else y.changed t' }
   | .sub t names => stepSub y t names
-  | .subx t names keepNonce legacy => stepSub y t names keepNonce legacy
+  | .subx t names keepNonce legacy nackFirst => stepSub y t names keepNonce legacy nackFirst
   | .pushcut k =>
     -- a push whose delivery is cut after `k` responses per client, then both streams break
     let y := { y with world := y.pending }
@@ -222,5 +232,8 @@ def step (y : Sys) : Op → Sys
     let (dv, dw) := pushConnDelta y.genPushDelta y.dsrv
     let y1 := { y with ssrv := sv, dsrv := dv, changed := fun _ => [] }
     deliver y1 sw dw
+
+/-- One operation; the delivery logs cover exactly this operation. -/
+def step (y : Sys) (op : Op) : Sys := stepCore { y with slog := [], dlog := [] } op
 
 end IstioModel.C03
